@@ -47,7 +47,7 @@ SEQ_BASE = dict(AeadC="1", KdfC="1", ExpMenu='"few"', SweepFrom="0", SweepTo="0"
 
 SETUP_BASE = dict(KemSet="{32}", KdfSet="{1}", AeadSet="{1, 65535}", ModeSet="{0, 1, 2, 3}", Vals='"small"',
                   Perturb='{"none", "info", "psk", "pskid", "mode", "kdf", "aead", "skr", "enc", "pks", "shift"}',
-                  MaxSetSeq="0", Impost="FALSE", ShotsOnly="FALSE", ShotDl='"tamper"', Twin="FALSE", BadPkR='"none"', Shape='"all"', SweepMax="0", Emit="FALSE", EmitWiring="FALSE", Ordered="TRUE", MaxSeals="0", MaxOpens="0", MaxExports="0", MaxShots="0",
+                  MaxSetSeq="0", Impost="FALSE", ShotsOnly="FALSE", ShotDl='"tamper"', Twin="FALSE", BadPkR='"none"', Shape='"all"', SweepMax="0", SweepExtra="{}", Emit="FALSE", EmitWiring="FALSE", Ordered="TRUE", MaxSeals="0", MaxOpens="0", MaxExports="0", MaxShots="0",
                   RecordHist="FALSE", HistLen="0", FormMenu='{"alloc"}', OvfFirstInOpen="TRUE", HugeSeals="FALSE")
 
 
@@ -432,6 +432,9 @@ def c02(chk, tier):
         setup_transitions(chk, ses, "gen_exact_sweep",
                           setup_over(KemSet="{%d}" % skem, KdfSet=kset([rot([1, 2, 3], 2)]), AeadSet=kset([rot([1, 2, 3], 1)]),
                                      ModeSet="{0, 3}", Vals='"leaf"', Shape='"sweep"', SweepMax=300 if thorough else 140,
+                                     # ... sparsely on to 1200: every 3rd length and +-2 around every multiple of 64
+                                     SweepExtra=kset(sorted(set(range(301 if thorough else 141, 1201 if thorough else 701, 3))
+                                                            | {64 * k + d for k in range(3, 19 if thorough else 11) for d in (-2, -1, 0, 1, 2)})),
                                      Perturb="{}", Emit=True, MaxExports=1),
                           exact_tags=ALL, casekey=key,
                           want=lambda last, tr: last["op"] == "setup_s" or (last["op"] == "export" and last["plain"]["len"] == 32
